@@ -1,5 +1,6 @@
 """C16 — user classes: resolution, inheritance and visibility follow Ruby."""
 import json
+import re
 import os
 from .. import common, meta
 
@@ -50,6 +51,16 @@ def gen_case(rng, k):
             mname = "pu%d_%d_%d" % (k, c, j)
             lines += ["  def %s" % mname, "    1", "  end"]
             info["pub"].append(mname)
+        if info["ext"] and rng.random() < 0.6:
+            lines += ["  def self.ce%d_%d" % (k, c), "    %s" % info["ext"][0], "  end"]       # receiverless call of an extended module's method
+            info["cms"].append("ce%d_%d" % (k, c))
+        if info["inc"] and rng.random() < 0.6:
+            lines += ["  def ci%d_%d" % (k, c), "    %s" % info["inc"][0], "  end"]
+            info["pub"].append("ci%d_%d" % (k, c))
+        if rng.random() < 0.25:
+            om = rng.choice(["to_s", "inspect"])
+            lines += ["  def %s" % om, "    %d" % (7 + c), "  end"]           # overrides Object's method with another return type
+            info["over"] = om
         anc_prot = [(x["name"], m) for x in chain_of(parent) for m in x["prot"]]
         if anc_prot and rng.random() < 0.8:
             # a protected method of an ancestor (any depth) called on another object from inside a descendant: fine
@@ -73,6 +84,10 @@ def gen_case(rng, k):
             mname = "pt%d_%d" % (k, c)
             lines += ["  protected", "  def %s" % mname, "    4", "  end"]
             info["prot"].append(mname)
+        if rng.random() < 0.25:
+            # a class nested after the visibility sections: its body starts public again
+            lines += ["  class In%d_%d" % (k, c), "    def inn%d_%d" % (k, c), "      5", "    end", "  end"]
+            info["inner"] = ("In%d_%d" % (k, c), "inn%d_%d" % (k, c))
         lines += ["end", ""]
         classes.append(info)
 
@@ -92,6 +107,7 @@ def gen_case(rng, k):
         return out
 
     expect_bad = set()
+    expect_type = {}
     inherited = 0
     for ci in classes:
         var = "o_" + ci["name"].lower()
@@ -115,6 +131,12 @@ def gen_case(rng, k):
             expect_bad.add(len(lines))
         for m in cms:
             lines.append("%s.%s" % (ci["name"], m))
+        over = next((x["over"] for x in ch if x.get("over")), None)
+        if over:
+            lines.append("dbtp %s.%s" % (var, over))          # the nearest ancestor's definition, not Object's
+            expect_type[len(lines)] = "Integer"
+        if ci.get("inner"):
+            lines.append("%s::%s.new.%s" % (ci["name"], ci["inner"][0], ci["inner"][1]))
         if ci.get("peek"):
             lines.append("%s.%s(%s.new(%s))" % (var, ci["peek"], ci["name"], ", ".join(["1"] * ar)))
         if pubs and rng.random() < 0.5:
@@ -140,7 +162,17 @@ def gen_case(rng, k):
         lines.append("ou%d.pko%d(%s.new(%s))" % (k, k, x["name"], ", ".join(["1"] * (init or 0))))
         expect_bad.add(row)
     first_call_row = next(i + 1 for i, l in enumerate(lines) if " = Cl" in l)
-    return "\n".join(lines) + "\n", expect_bad, first_call_row, inherited
+    if rng.random() < 0.3:
+        # the whole group inside a namespace: unqualified superclasses, includes and extends are resolved lexically
+        ns = "Nw%d" % k
+        defs = ["module " + ns] + [("  " + l) if l else l for l in lines[:first_call_row - 1]] + ["end"]
+        calls = [re.sub(r"\b(Cl%d_\d+|Out%d)\b" % (k, k), ns + r"::\1", l) for l in lines[first_call_row - 1:]]
+        lines = defs + calls
+        sh = lambda r: r + 1 if r < first_call_row else r + 2
+        expect_bad = set(sh(r) for r in expect_bad)
+        expect_type = {sh(r): v for r, v in expect_type.items()}
+        first_call_row += 2
+    return "\n".join(lines) + "\n", (expect_bad, expect_type), first_call_row, inherited
 
 
 def gen_lookup(rng):
@@ -241,9 +273,17 @@ def run_e2e(ctx, n, tag):
             f = line.split(":::", 2)
             if len(f) == 3:
                 got.setdefault(int(f[1]), []).append(f[2])
+        bad, types = bad if isinstance(bad, tuple) else (bad, {})
+        wrong_type = [(r, t, got.get(r)) for r, t in sorted(types.items()) if got.get(r) != [t]]
+        for r in types:
+            got.pop(r, None)
         rows_bad = set(r for r in got if r >= first or r in bad)
         defs_bad = [r for r in got if r < first and r not in bad]
-        if rows_bad != bad or defs_bad:
+        if wrong_type:
+            tl = text.split("\n")
+            failures.append({"kind": "class-resolution", "wrong_type": [(r, tl[r - 1], want, g) for r, want, g in wrong_type][:5], "not_reported": [], "wrongly_reported": [],
+                             "program": text, "output": so[:1500], "key": ["class", "type " + tl[wrong_type[0][0] - 1].split(".")[-1][:8]]})
+        elif rows_bad != bad or defs_bad:
             miss = sorted(bad - rows_bad)
             extra = sorted(rows_bad - bad) + defs_bad
             tl = text.split("\n")
@@ -254,7 +294,7 @@ def run_e2e(ctx, n, tag):
     lay["runs"] += len(cases)
     lay["distinct_nontrivial"] += nontriv
     if cases:
-        ctx.sample({"program": cases[0][0][:600], "rows_expected_to_be_reported": sorted(cases[0][1])})
+        ctx.sample({"program": cases[0][0][:600], "rows_expected_to_be_reported": sorted(cases[0][1][0] if isinstance(cases[0][1], tuple) else cases[0][1])})
     return failures
 
 
